@@ -126,8 +126,47 @@ def r4(F, rep):
         rep.add("C04-R4", "branch|%s" % ("subtract" if subtracts else "plain"), f.loc(w), what, ok, func=f.q)
 
 
+def r5(F, rep):
+    rep.rule("C04-R5", "force sum and sample count advance together: colvar_grid_gradient::acc_force() adds the force to every "
+                       "component of the bin (loop over mult) and increments the count grid for the same index, under no "
+                       "condition other than the count grid being defined; value_output() divides the sum by the count of the "
+                       "same index and only when that count is positive")
+    fs = [f for f in F.funcs.values() if f.name == "acc_force" and (f.cls or "").startswith("colvar_grid_gradient")]
+    if not fs:
+        raise AnalysisBroken("colvar_grid_gradient::acc_force not found")
+    f = fs[0]
+    ix = f.params[0]
+    adds = [(w, t) for w, t in lvalue_writes(f) if "data" in X.key(t, f) and w.get("op") in ("-=", "+=")]
+    incs = [c for c in X.calls(f) if X.callee_name(c) == "incr_count"]
+    ok_add = False
+    for w, t in adds:
+        loops = [a for a in f.ancestors(w) if a["k"] == "ForStmt"]
+        ok_add = bool(loops) and "mult" in X.key(loops[0]["c"][1], f) and ("%s#%s" % (ix["n"], ix["d"])) in X.key(t, f)
+    rep.add("C04-R5", "acc_force|sum", f.loc(adds[0][0]) if adds else f.loc(), "acc_force() accumulates into every component of bin `%s`: %s" % (ix["n"], ok_add), ok_add, func=f.q)
+    ok_inc = False
+    for c in incs:
+        same = X.call_args(c) and X.key(X.call_args(c)[0], f) == "%s#%s" % (ix["n"], ix["d"])
+        gs = [(X.re_strip(X.key(f.nodes[cid], f)), pol) for cid, pol in f.cfg.real_guards(c)]
+        ok_inc = bool(same) and all("samples" in k and pol for k, pol in gs) and not any(a["k"] == "ForStmt" for a in f.ancestors(c))
+    rep.add("C04-R5", "acc_force|count", f.loc(incs[0]) if incs else f.loc(), "acc_force() increments the count of the same bin exactly once (%d site), guarded only by the count grid being defined" % len(incs),
+            ok_inc and len(incs) == 1, detail="the stored value would no longer be the mean of the samples", func=f.q)
+    vs = [g for g in F.funcs.values() if g.name == "value_output" and (g.cls or "").startswith("colvar_grid_gradient")]
+    if vs:
+        g = vs[0]
+        res = X.const_locals(g)
+        divs = [n for n in g.walk() if n["k"] == "BinaryOperator" and n["op"] == "/"]
+        ok = False
+        for d in divs:
+            facts, _ = C.guard_facts(g, d, res)
+            pos = any(t[0] in ("pos",) or (t[0] == "cmp" and t[1] == ">" and t[3] in ("0", "0.0")) for t in facts)
+            same = g.params and ("%s#%s" % (g.params[0]["n"], g.params[0]["d"])) in X.key(X.kids(d)[0], g)
+            ok = ok or (pos and bool(same))
+        rep.add("C04-R5", "value_output|mean", g.loc(divs[0]) if divs else g.loc(), "value_output() divides the sum of the bin by its positive count", ok, func=g.q)
+
+
 def run(F, rep, tier):
     r1(F, rep)
     r2(F, rep)
     r3(F, rep)
     r4(F, rep)
+    r5(F, rep)
